@@ -9,7 +9,7 @@ from gvsim.sim import Raised, sut
 
 PROP = 'C19'
 TIERS = {'quick': {'runs': 900, 'wall': 110, 'chunk': 6}, 'thorough': {'runs': 16000, 'wall': 1500, 'chunk': 10}}
-REACH = ['clear_caches', 'foreign_cached_query', 'repeat_other_variant', 'cached_vs_uncached', 'visibility_walls']  # probes / faults that must fire in every batch (reach gaps are reported in the evidence)
+REACH = ['clear_caches', 'foreign_cached_query', 'repeat_other_variant', 'cached_vs_uncached', 'visibility_walls', 'visibility_parametrised']  # probes / faults that must fire in every batch (reach gaps are reported in the evidence)
 RULE = ('one run = a query client issuing compute_ray / compute_rays / compute_rays_fancy and their cached variants for '
         'areas 1x1..9x9 (thorough: ..13x13; with and without coordinate offset) and every origin, in seeded order with '
         'repeats, interleaved with a visibility client calling the ray-traced visibility function on unobstructed and '
@@ -153,7 +153,20 @@ def execute(record, ctx):
                 for _ in range(rr.randint(1, max(1, h * w // 4))):
                     objs[rr.randrange(h)][rr.randrange(w)] = Wall()
             grid = Grid(objs)
-            v = sut(vreg['raytracing'], grid, Position(oy, ox))
+            variant = s % 5
+            # parameter settings under which an unobstructed view still has to show everything (num == den on every
+            # cell) and the origin is visible (every ray is lit where it starts)
+            kw = [{}, {'absolute_counts': False, 'threshold': 1}, {'absolute_counts': False, 'threshold': 1.0}, {'threshold': 1.0},
+                  {'absolute_counts': False, 'threshold': 0.999}][variant]
+            if kw:
+                ctx.probe('visibility_parametrised')
+            if (s // 5) % 2 and kw:
+                from gym_gridverse.envs import visibility_functions as _vf
+
+                f = sut(_vf.factory, 'raytracing', **kw)
+                v = f if isinstance(f, Raised) else sut(f, grid, Position(oy, ox))
+            else:
+                v = sut(vreg['raytracing'], grid, Position(oy, ox), **kw)
             ctx.probe('visibility_' + mode + ('_boundary_size' if h * w > 100 else ''))
             ctx.log('vis', op)
             if isinstance(v, Raised):
